@@ -77,7 +77,31 @@ def check_config(cfg, w, rep):
                 dterm = w.sym.of_operand(b, it.args[1])
                 ok = False
                 why = "no sink write of the same bytes"
-                for sblk, st, kind in sinks:
+                # merged form: `let n = match .. { mapped => write_mmap(.., X)?, plain => file.write(X)? }; digest.input(&X[..n])` —
+                # the slice end is, on every branch, the Ok payload of that branch's sink write of the same X
+                rng0 = _range_to_end(dterm)
+                base0 = _strip_last_range(dterm)
+                if rng0 is not None and rng0[0] == "alt":
+                    hit = []
+                    for alt in rng0[1]:
+                        m_ = None
+                        for sblk, st, kind in sinks:
+                            sdata = w.sym.of_operand(b, st.args[-1])
+                            if alt[0] == "call" and alt[1] == (st.callee.rpath if st.callee.resolved else st.callee.path) and alt[2] and \
+                                    teq(alt[2][-1], sdata) and teq(base0, sdata) and \
+                                    tuple(e for e in alt[3] if e[0] in ("v", "f"))[-2:] == (("v", "Ok"), ("f", "0")) and kind in ("partial", "whole-local", "dead-stub"):
+                                m_ = (sblk, st, kind)
+                        if m_ is None:
+                            hit = None
+                            break
+                        hit.append(m_)
+                    if hit:
+                        ok = True
+                        for sblk, st, kind in hit:
+                            matched_sinks.add(sblk.i)
+                            if kind == "whole-local":
+                                check_whole_sink(cfg, w, rep, prog.callee_fn(st))
+                for sblk, st, kind in ([] if ok else sinks):
                     sdata = w.sym.of_operand(b, st.args[-1])
                     if kind == "partial":
                         # digest input must be X[..n] with n = Ok payload of this write of X
